@@ -2,7 +2,14 @@
 # Regression against false alarms: every property-preserving change must leave every check silent
 # (except where meta.json says otherwise, e.g. C12-PB which contradicts C15's null clause).
 set -u
-cd /verif
+export SIMPLC_OUT_DIR="${SIMPLC_OUT_DIR:-/tmp/simplc-sensitivity-out-$$}"
+# The repository the change is applied to and the checks run against: /repo, or a scratch copy named
+# by SIMPLC_REPO (e.g. the snapshot of `vp run --with-repo`), so that a long regression need not
+# occupy /repo.  The machinery is the tree this script lives in.
+HERE="$(cd "$(dirname "${BASH_SOURCE[0]}")/.." && pwd)"
+REPO="${SIMPLC_REPO:-/repo}"
+if [ "$REPO" != /repo ]; then export SIMPLC_REPO_WS="$REPO/compiler"; fi
+cd "$HERE"
 fail=0
 for d in preserving/*/; do
   id=$(basename $d)
